@@ -28,7 +28,7 @@ META = {
     "assumptions": [
         "recency is owned by the harness: after every operation all cache files are re-stamped with logical times far in the past, so max(atime,mtime) order between operations is exact and independent of clock granularity/relatime",
         "eviction is judged by a validity predicate (size bound, no evictee more recent than a kept file, minimality, current request protected), not by one expected set",
-        "requests never name the same key twice (two concurrent downloads of one key are outside the stated history space; excluded by construction)",
+        "a request of up to 3 URIs may name the same key twice (both downloads run in one imap chunk); multi-chunk requests name distinct keys, because two concurrent downloads of one key are outside the stated history space",
         "thread interleavings inside ThreadPool.imap are not controlled beyond forcing inter-chunk completion orders with events (thorough tier)",
     ],
 }
@@ -62,7 +62,9 @@ def request(draw, max_items=3, names=NAMES6):
     seen = set()
     for _ in range(n):
         it = draw(item(names))
-        if _key(it) in seen:
+        if _key(it) in seen and (max_items > 3 or draw(st.integers(0, 2)) > 0):
+            # the same key twice in one request is allowed for small requests (one imap chunk, so the two
+            # downloads are sequential); large multi-chunk requests keep distinct keys
             continue
         seen.add(_key(it))
         items.append(it)
@@ -184,6 +186,8 @@ def run_history(c):
         classes.add(f"limit_{c['limit']}")
         if lab.res.gate_timeouts:
             classes.add("gate_timeout")
+        if lab.saw_duplicates:
+            classes.add("request_names_a_key_twice")
         return {"nontrivial": lab.evict_after_hit, "classes": sorted(classes)}
     finally:
         lab.close()
